@@ -103,6 +103,11 @@ Section CancelTransparent.
     induction n as [|n IH]; intros acts inr stk m cs cs0 Hs Hs0.
     - unfold same. cbn. do 3 eexists; repeat split; eauto.
     - unfold same. cbn [Cancel.exec_actions].
+      destruct (poll_silent cs Hs) as (c1 & Ep & Hc1). destruct (poll_silent cs0 Hs0) as (c01 & Ep0 & Hc01).
+      rewrite Ep, Ep0.
+      pose proof (tick_silent c1 Hc1) as Ht. pose proof (tick_silent c01 Hc01) as Ht0.
+      clear Hs Hs0. remember (tick c1) as cs2 eqn:E2. remember (tick c01) as cs02 eqn:E02.
+      clear E2 E02 Ep Ep0 Hc1 Hc01 c1 c01. rename Ht into Hs. rename Ht0 into Hs0.
       destruct (io_next_line IO (ms m)) as [s [[line|]|e]]; try (do 3 eexists; repeat split; eauto; fail).
       destruct (run_rules_same f acts inr stk (with_ms m (io_set_record IO s line)) Hs Hs0)
         as ([o inr'] & cs1 & cs01 & Er & Er0 & Hs1 & Hs01).
